@@ -8,6 +8,7 @@ import (
 
 	"verifharness/gen"
 	"verifharness/mon"
+	"verifharness/refts"
 )
 
 func init() {
@@ -29,6 +30,7 @@ func init() {
 			need(m, &out, "rewind_state_before_first_call", 50)
 			need(m, &out, "repeated_rewinds", 200)
 			need(m, &out, "long_stream_rewinds", 500)
+			need(m, &out, "rewinds_with_a_size_detection_would_not_find", 200)
 			return out
 		},
 	})
@@ -90,6 +92,35 @@ func runC20(c *mon.Ctx) {
 						cfg.Chunk = nil
 					}
 					rewindCase(c, "streams", i, s, m, cfg, fresh, k, k2)
+				}
+			}
+		}
+		// the configuration must survive a rewind too: an explicit packet size on inputs where auto-detection would decide otherwise
+		// (188+k framing whose extra bytes hold sync bytes; a single packet, which is too short to detect anything)
+		if i%3 == 0 {
+			k := []int{4, 16, 2}[int(i/3)%3]
+			big := refts.Reframe(s.Bytes, k, func(p, j int) byte {
+				if (p+j)%3 == 0 {
+					return 0x47
+				}
+				return byte(p*7 + j)
+			})
+			variants := []struct {
+				in []byte
+				ps int
+			}{{big, 188 + k}, {s.Bytes[:188], 188}}
+			for _, v := range variants {
+				sv := &gen.Stream{Units: s.Units, Packets: s.Packets, Owner: s.Owner, Bytes: v.in}
+				for _, api := range []string{"data", "packet"} {
+					cfg := DemuxCfg{PacketSize: v.ps, Reader: "seek", API: api}
+					fresh := RunDemux(v.in, cfg)
+					if fresh.Panic != "" {
+						continue
+					}
+					for kk := 0; kk <= fresh.Calls; kk += 1 + fresh.Calls/6 {
+						rewindCase(c, "streams", i, sv, m, cfg, fresh, kk, -1)
+						c.Count("rewinds_with_a_size_detection_would_not_find")
+					}
 				}
 			}
 		}
